@@ -34,7 +34,7 @@ RULE = ("scenarios = {seed, event-queue (LLSD and garbage body), wrapper, asset 
         "unknown URL} x {request, response} x addon behaviours {ignore, take and release later, take and resume inside the hook, "
         "resume inside the hook, take then raise, inject response, rewrite URL, raise, retarget cap data, disable streaming, "
         "return True}; each scenario is run once cleanly and once per function entered inside the handlers (failpoint raising "
-        "there; quick: every 3rd failpoint per scenario, thorough: all); + the mitmproxy-side callback pump (good / corrupt state / "
+        "there; quick: every 3rd failpoint per scenario, thorough: all) and once per statement executed inside the event manager's own handler functions (sys.monitoring LINE failpoints; quick: every 4th); + the mitmproxy-side callback pump (good / corrupt state / "
         "unknown event / preempt / two flows) and whole request+response cycles through both sides x {viewer, proxy-injected, "
         "browser} origins. distinct_nontrivial = distinct (scenario, failpoint function) pairs + end-to-end combinations")
 ASSUMPTIONS = [
@@ -44,7 +44,7 @@ ASSUMPTIONS = [
     "an exception escaping pump_proxy_event is tolerated (the run loop logs and continues) as long as the flow is handed back",
 ]
 MUST_REACH = {"scenarios": 40, "failpoint_runs": 500, "clean_runs": 40, "taken_flows_released": 30, "state_transfers_compared": 500,
-              "exceptions_escaped_pump": 50, "mitm_side_runs": 6, "e2e_runs": 100, "e2e_states_compared": 150, "session_only_capdata": 5, "locally_served_assets": 3}
+              "exceptions_escaped_pump": 50, "mitm_side_runs": 6, "e2e_runs": 100, "e2e_states_compared": 150, "session_only_capdata": 5, "locally_served_assets": 3, "line_failpoint_runs": 300}
 
 FAIL = {"armed_at": None, "count": 0, "in_handler": 0, "points": [], "fired": None}
 TOOL_ID = 3
@@ -64,6 +64,8 @@ def _on_py_start(code, offset):
         return None
     if code.co_name in _SKIP_FUNCS or code.co_name.startswith("<"):
         return None
+    if FAIL.get("mode", "call") != "call":
+        return None
     idx = FAIL["count"]
     FAIL["count"] += 1
     FAIL["points"].append(f"{os.path.basename(fn)}:{code.co_qualname}")
@@ -71,6 +73,24 @@ def _on_py_start(code, offset):
         FAIL["fired"] = FAIL["points"][-1]
         raise InjectedFault(f"injected at {FAIL['points'][-1]}")
     return None
+
+
+def _on_line(code, line):
+    """Statement-level failpoints inside the HTTP event manager's own handler functions."""
+    if not FAIL["in_handler"] or FAIL.get("mode") != "line":
+        return None
+    idx = FAIL["count"]
+    FAIL["count"] += 1
+    FAIL["points"].append(f"{code.co_qualname}:{line}")
+    if FAIL["armed_at"] is not None and idx == FAIL["armed_at"]:
+        FAIL["fired"] = FAIL["points"][-1]
+        raise InjectedFault(f"injected at line {line} of {code.co_qualname}")
+    return None
+
+
+def _line_targets():
+    from hippolyzer.lib.proxy.http_event_manager import MITMProxyEventManager as M
+    return [getattr(M, n).__code__ for n in ("_handle_request", "_handle_response", "_handle_login_flow", "_handle_eq_event")]
 
 
 _mon_on = False
@@ -86,7 +106,10 @@ def monitoring_on():
     except ValueError:
         pass
     mon.register_callback(TOOL_ID, mon.events.PY_START, _on_py_start)
+    mon.register_callback(TOOL_ID, mon.events.LINE, _on_line)
     mon.set_events(TOOL_ID, mon.events.PY_START)
+    for code in _line_targets():
+        mon.set_local_events(TOOL_ID, code, mon.events.LINE)
     _mon_on = True
 
 
@@ -94,6 +117,8 @@ def monitoring_off():
     global _mon_on
     if _mon_on:
         sys.monitoring.set_events(TOOL_ID, 0)
+        for code in _line_targets():
+            sys.monitoring.set_local_events(TOOL_ID, code, 0)
         sys.monitoring.free_tool_id(TOOL_ID)
         _mon_on = False
 
@@ -275,12 +300,12 @@ def _resume_with_snapshot(self):
 HippoHTTPFlow.resume = _resume_with_snapshot
 
 
-def run_scenario(ctx, kind, event_type, behaviour, armed_at):
+def run_scenario(ctx, kind, event_type, behaviour, armed_at, mode="call"):
     """One execution. Returns the list of failpoints reached (for the dry run)."""
     addon = FlowAddon(behaviour, event_type)
     rig = HTTPRig(addons=[addon])
     wrap_handlers(rig.manager)
-    FAIL.update(armed_at=armed_at, count=0, in_handler=0, points=[], fired=None)
+    FAIL.update(armed_at=armed_at, count=0, in_handler=0, points=[], fired=None, mode=mode)
     _SNAPS.clear()
     try:
         session, flow = build(rig, kind, event_type)
@@ -294,7 +319,8 @@ def run_scenario(ctx, kind, event_type, behaviour, armed_at):
             exc = rig.pump()
         finally:
             FAIL["armed_at"] = None
-        wit = {"kind": kind, "event": event_type, "behaviour": behaviour, "failpoint_index": armed_at, "failpoint": FAIL["fired"]}
+        wit = {"kind": kind, "event": event_type, "behaviour": behaviour, "failpoint_index": armed_at, "failpoint": FAIL["fired"],
+               "failpoint_mode": mode}
         if exc is not None:
             ctx.count("exceptions_escaped_pump")
         callbacks = [it for it in q.log if it[0] == "callback" and it[1] == flow.id]
@@ -572,6 +598,16 @@ def run(ctx):
                 ctx.count("failpoint_runs")
                 ctx.cover("failpoint_functions", points[k])
                 ctx.nontrivial((kind, event_type, behaviour, points[k]))
+            # statement-level failpoints inside the event manager's own handler functions
+            lines = run_scenario(ctx, kind, event_type, behaviour, None, mode="line")
+            lstride = ctx.pick(4, 1)
+            for k in range(0, len(lines)):
+                if (k + i) % lstride:
+                    continue
+                run_scenario(ctx, kind, event_type, behaviour, k, mode="line")
+                ctx.count("line_failpoint_runs")
+                ctx.cover("failpoint_lines", lines[k])
+                ctx.nontrivial((kind, event_type, behaviour, lines[k]))
     finally:
         monitoring_off()
     if ctx.shard == ctx.nshards - 1:
@@ -589,6 +625,6 @@ def replay(ctx, w):
         mitm_variants(ctx)
     elif "kind" in w:
         try:
-            run_scenario(ctx, w["kind"], w["event"], w["behaviour"], w.get("failpoint_index"))
+            run_scenario(ctx, w["kind"], w["event"], w["behaviour"], w.get("failpoint_index"), mode=w.get("failpoint_mode", "call"))
         finally:
             monitoring_off()
